@@ -684,6 +684,50 @@ func main() {
 			os.Exit(2)
 		}
 		bad := false
+		// second-level cases: {mode, workload, first_cut, second_cut, tail}
+		var l2c struct {
+			Mode   string `json:"mode"`
+			WL     string `json:"workload"`
+			First  *int   `json:"first_cut"`
+			Second *int   `json:"second_cut"`
+			Tail   string `json:"tail"`
+		}
+		if err := r.LoadReplay(&l2c); err == nil && l2c.First != nil && l2c.Second != nil {
+			for _, j := range jobs {
+				if j.pr.mode != l2c.Mode || j.pr.wl != l2c.WL || j.c.idx-j.pr.start != *l2c.First || j.tail != "synced" || j.env != "reoffer" || j.torn != 0 {
+					continue
+				}
+				fmt.Printf("replaying: mode=%s workload=%s first cut before durable op #%d, second cut before op #%d of the restarted node's life, wal tail=%s\n", l2c.Mode, l2c.WL, *l2c.First, *l2c.Second, l2c.Tail)
+				f1 := factsAt(j.pr, j.c)
+				res, l2 := restart(j.pr.mode, j.pr.wl, [][]consensus.VerifOp{j.pr.ops[:j.c.idx]}, j.wal, j.env, f1, j.pr, true)
+				if len(res) != 0 || l2 == nil {
+					fmt.Println("  the first-level restart is not clean on this tree:", res)
+					bad = true
+					break
+				}
+				for _, c2 := range l2.cuts {
+					if c2.idx != *l2c.Second {
+						continue
+					}
+					img := c2.walSynced
+					if l2c.Tail == "whole" {
+						img = c2.walTail
+					}
+					res2, _ := restart(j.pr.mode, j.pr.wl, [][]consensus.VerifOp{j.pr.ops[:j.c.idx], l2.ops[:c2.idx]}, img, "reoffer", factsAfter(f1, l2, c2), nil, false)
+					for k, what := range res2 {
+						fmt.Printf("  %s: %s\n", k, what)
+						bad = true
+					}
+				}
+				break
+			}
+			if bad {
+				fmt.Printf("VIOLATION property=C05 replay=%s\n", r.ReplayPath)
+				os.Exit(1)
+			}
+			fmt.Println("no oracle fails on this case")
+			os.Exit(0)
+		}
 		for _, j := range jobs {
 			if j.pr.mode == cid.Mode && j.pr.wl == cid.WL && j.c.idx-j.pr.start == cid.Cut && j.tail == cid.Tail && j.torn == cid.TornAt && j.env == cid.Env {
 				fmt.Printf("replaying: mode=%s workload=%s cut before durable op #%d (%s | %s) wal tail=%s env=%s\n", cid.Mode, cid.WL, cid.Cut, cid.After, cid.Before, cid.Tail, cid.Env)
